@@ -88,7 +88,11 @@ def line_kind(src: str, idx: int) -> str:
 
 
 def check_spans(res: Result, shape: list[Any], layout: str) -> None:
-    world = G.World(shape, layout)
+    try:
+        world = G.World(shape, layout)
+    except G.Unprintable:
+        res.count("no_rendition_in_layout")  # a raw/doc/nested-comment/translate block inside a line-statement block
+        return
     env = env_for(layout)
     src = world.main.source
     sources = {n: p.source for n, p in world.templates.items()}
@@ -320,7 +324,11 @@ class C20(Check):
 
     def bounds(self, tier: str) -> dict[str, Any]:
         n = 3 if tier == "quick" else 4
-        return {"span_programs": f"C19 corpus: <= {n - 1} constructs over the full menu and = {n} over the core menu, depth <= 2",
+        return {"lexer_level_programs": f"every program of <= {2 if tier == 'quick' else 3} constructs over the full menu + "
+                                        f"{len(G.EXTRA_LEAVES)} extra leaves / {len(G.EXTRA_BLOCKS)} extra blocks (comment, nested "
+                                        "comment, raw, doc, inline comment, break/continue, translate/plural) that contains an "
+                                        "extra construct, x 4 layouts",
+                "span_programs": f"C19 corpus: <= {n - 1} constructs over the full menu and = {n} over the core menu, depth <= 2",
                 "layouts": LAYOUTS, "malformed_k": self.k(tier), "fragments": len(P.FRAGMENTS),
                 "mutant_programs": "C19 corpus n <= 2, layouts plain/ml/liquid"}
 
@@ -345,6 +353,7 @@ class C20(Check):
         else:
             sh += [("M", (f, g)) for f in range(nf) for g in range(nf)] + [("M1", f) for f in range(nf)]
         sh += [("X", i, 16) for i in range(16)]
+        sh += [("K", i, 8) for i in range(8)]
         sh += [("T",)]
         return sh
 
@@ -360,6 +369,12 @@ class C20(Check):
         if kind == "S":
             _, i, n = shard
             for idx, shape in enumerate(self.programs(tier)):
+                if idx % n == i:
+                    for layout in LAYOUTS:
+                        check_spans(res, shape, layout)
+        elif kind == "K":  # comment / raw / doc / inline comment / break / continue / translate, alone and combined
+            _, i, n = shard
+            for idx, shape in enumerate(G.lexer_shapes(2 if tier == "quick" else 3, 2)):
                 if idx % n == i:
                     for layout in LAYOUTS:
                         check_spans(res, shape, layout)
